@@ -61,6 +61,9 @@ type Sim struct {
 	PoolOn     bool
 	// ParkAtMapRange makes every R1 site a park point under ModePark.
 	ParkAtMapRange bool
+	// PoolSticky makes the simulated pool always hand out the most recently
+	// released object (one object accumulates the whole history of a run).
+	PoolSticky bool
 	poolFree   map[*Pool][]any
 }
 
